@@ -9,14 +9,18 @@ N == Len(Tr.obs)        \* one observation per transmission (first use, reuse, .
 TInit == tid \in 1..Len(Traces) /\ l = 1
 IsHost(h) == Lower(h[1]) = "host"
 HostLeads(hs) == SelectSeq(hs, IsHost) \o SelectSeq(hs, LAMBDA h : ~IsHost(h))
+(* a HISTORY of transmissions by one caller: transmission l has its own shape when the trace carries
+   "shapes" (the caller re-uses its header-list OBJECT across requests whose bodies differ: what
+   was defaulted for one request must not leak into the next) *)
+ShapeAt(i) == IF "shapes" \in DOMAIN Tr THEN Tr.shapes[i] ELSE Tr.shape
 Judge(o) ==
-  LET e == Expected(Tr.shape) IN
+  LET e == Expected(ShapeAt(l)) IN
   /\ o.kind = e.kind
   /\ e.kind = "LocalProtocolError" => o.written = 0
-  /\ (e.kind = "ok" /\ Tr.shape.proto = "h11") =>
+  /\ (e.kind = "ok" /\ ShapeAt(l).proto = "h11") =>
         /\ o.method = e.method /\ o.target = e.target
         /\ HostLeads(o.headers) = HostLeads(e.headers) /\ o.body = e.body      \* "Host allowed to lead"
-  /\ (e.kind = "ok" /\ Tr.shape.proto = "h2") =>
+  /\ (e.kind = "ok" /\ ShapeAt(l).proto = "h2") =>
         /\ o.headers = e.headers /\ o.body = e.body
         /\ o.endOnHeaders = e.endOnHeaders /\ o.ended = e.ended
 TStep == l <= N /\ Judge(Tr.obs[l]) /\ l' = l + 1 /\ UNCHANGED tid
